@@ -659,7 +659,7 @@ var manifestCodec = codec{
 		// framed input: the codec prefix (payload magic) would be read as a 1.4 GB frame length, and a complete 4-byte
 		// length with a large value is fatal by itself (known finding; every death costs a child restart): the quick
 		// tier stops short of a complete length, the mutation family covers the length field
-		{Name: "manifest.readEdit", Frame: 4, NoPrefix: true, ArbLen: func(th bool) int { return pick(th, 3, 5) }, Prep: func(in []byte) func() error {
+		{Name: "manifest.readEdit", Frame: 4, NoPrefix: true, ArbLen: func(th bool) int { return pick(th, 3, 4) }, Prep: func(in []byte) func() error {
 			r := bufio.NewReaderSize(bytes.NewReader(in), 16)
 			return func() error { _, err := manifest.VerifReadEdit(r); return err }
 		}},
@@ -1094,7 +1094,7 @@ var walCodec = codec{
 	Alpha: []byte{0x00, 0x01, 'a', 0x80, 0xFF},
 	// a complete 4-byte length prefix with a large value is fatal by itself (see the known finding), and every such
 	// death costs a child restart: the quick tier stops short of a complete prefix, the mutation family covers the prefix
-	ArbLen: func(th bool) int { return pick(th, 3, 5) },
+	ArbLen: func(th bool) int { return pick(th, 3, 4) },
 }
 
 var codecs = []*codec{&entryCodec, &vptrCodec, &ikeyCodec, &vstructCodec, &manifestCodec, &lockCodec, &writeCodec, &raftEntriesCodec, &hardStateCodec, &snapshotCodec, &cmdCodec, &walCodec}
